@@ -214,3 +214,11 @@ impl<S: Storage> Storage for parking_lot::RwLockWriteGuard<'_, S> {
 pub use crate::config::{
     FILE_HEADER_SIZE, PAGE0_USABLE_SIZE, PAGE_HEADER_SIZE, PAGE_SIZE, PAGE_USABLE_SIZE,
 };
+
+/// verification hook: the WAL frame checksum functions (private module `wal`), needed to build
+/// frames with a valid checksum around corrupted header fields.
+#[cfg(kahflane_turdb_verif)]
+pub use wal::{
+    compute_checksum as verif_wal_compute_checksum,
+    validate_checksum as verif_wal_validate_checksum,
+};
